@@ -239,8 +239,8 @@ oppop[opmap["RERAISE"]] = 1
 
 def extended_format_BINARY_OP(opc, instructions) -> Tuple[str, Optional[int]]:
     opname = _nb_ops[instructions[0].argval][1]
-    if opname == "%":
-        opname = "%%"
+    # "%" and "%=" have to be escaped: the result is used as a format string
+    opname = opname.replace("%", "%%")
     return extended_format_binary_op(opc, instructions, f"%s {opname} %s")
 
 
